@@ -22,7 +22,7 @@ def handle (line : String) : String :=
         | .error e => "err accept-" ++ e.tag
         | .ok (m, _) => s!"ok {toHex header} {toHex m.protocol} {m.dc}"
     | _, _, _, _ => "bad-op"
-  | ["data", tape, tag, dc, secret, c2s, upChunks, s2c, downChunks] =>
+  | ["data", tape, tag, dc, secret, c2s, upChunks, s2c, downChunks, eofLast] =>
     match ofHex tape, ofHex tag, dc.toInt?, ofHex secret, parseList c2s, parseList upChunks, parseList s2c, parseList downChunks with
     | some tape, some tag, some dc, some secret, some c2s, some upChunks, some s2c, some downChunks =>
       match handshake X sha tape tag dc secret with
@@ -32,9 +32,10 @@ def handle (line : String) : String :=
         | .error e => "err accept-" ++ e.tag
         | .ok (_, sk) =>
           let (wireUp, _) := writeAll X ck.encrypt c2s
-          let (gotUp, _) := readAll X sk.decrypt upChunks
+          let e := eofLast == "true"
+          let (gotUp, _) := readAllE X e sk.decrypt upChunks
           let (wireDown, _) := writeAll X sk.encrypt s2c
-          let (gotDown, _) := readAll X ck.decrypt downChunks
+          let (gotDown, _) := readAllE X e ck.decrypt downChunks
           s!"{toHex wireUp} {toHex gotUp} {toHex wireDown} {toHex gotDown}"
     | _, _, _, _, _, _, _, _ => "bad-op"
   | _ => "bad-op"
